@@ -91,8 +91,8 @@ theorem c18_cmp_alloc (b : Bytes) : (C18Fmt.cmp b).peak ≤ 64 * b.length + 1677
 /-- pinned commit: `buffer.len() - 0x2A800` underflows on the empty buffer (repaired by `fixes/C18-02`) -/
 theorem c18_cmp_unfixed_witness : faults (C18Fmt.cmpUnfixed []) := faults_of_isFault (by decide)
 
-/-- `Texture::from_existing` (repaired by `fixes/C18-03`), assuming the `src/bcn` block decoders are
-panic-free under the two preconditions they check themselves -/
+/-- `Texture::from_existing` (repaired by `fixes/C18-03`), including the `src/bcn` block decoders
+(`block_decoder!`, `copy_block_buffer`) with every slice / index check they make -/
 theorem c18_tex_total (b : Bytes) : ¬ faults (C18Fmt.tex b) := (C18Fmt.tex_good b).1
 theorem c18_tex_alloc (b : Bytes) : (C18Fmt.tex b).peak ≤ 64 * b.length + 16777216 := (C18Fmt.tex_good b).2
 /-- pinned commit: an 80-byte B8G8R8A8 header declaring 1×1×1 with no payload indexes `src[0]` -/
